@@ -6,7 +6,7 @@ TITLE = "document hash and level binding"
 
 
 def run(prog, chk):
-    legacy_algorithm_table(prog, chk)
+    chk.defer(legacy_algorithm_table, prog, chk)
     chk.explanation = (
         "R7 over the six verifying predefined policies: every evaluation path that ends OK contains OK outcomes of the input-level "
         "rule (GEN-03) and either 'no document hash supplied' or both the algorithm equality (GEN-04) and the imprint equality "
